@@ -31,37 +31,53 @@ def struct_value(prog, adt_path, **fields):
 
 def eval_depth_test(prog, body):
     """Spec: no predicate -> pass; predicate ord -> pass iff cmp(curr, new) == ord
-    (depths are reciprocal: larger = nearer, so Less means 'new is nearer')."""
+    (depths are reciprocal: larger = nearer, so Less means 'new is nearer').
+    The verdict may depend on NOTHING else in the context: every other flag is
+    enumerated and must not change the outcome."""
+    from . import common
     new, curr = ("sym", "new"), ("sym", "curr")
     table = {}
     bad = []
+    FC = "retrofire_core::render::ctx::FaceCull"
+    DS = "retrofire_core::render::ctx::DepthSort"
+    sorts = [A.NONE, A.some(("adt", DS, "FrontToBack", [])), A.some(("adt", DS, "BackToFront", []))]
+    culls = [A.NONE, A.some(("adt", FC, "Front", [])), A.some(("adt", FC, "Back", []))]
+    n = 0
     for pred in (None, "Less", "Equal", "Greater"):
         for rel in ("lt", "eq", "gt", "un"):
-            it = A.Interp(prog, oracle=rel_oracle(new, curr, rel))
-            ctx = struct_value(prog, "retrofire_core::render::ctx::Context",
-                               depth_test=A.NONE if pred is None else A.some(A.ordering(pred)))
-            cell = A.Frame(None)
-            cell.locals[0] = ctx
-            try:
-                r = it.call_body(body, [("ref", cell, 0, []), new, curr])
-            except A.Undecided as e:
-                from . import common
-                raise common.Infra("C06.W4: depth_test could not be evaluated abstractly (%s); rule needs re-confirmation" % e)
-            if not isinstance(r, int):
-                from . import common
-                raise common.Infra("C06.W4: depth_test returned undecided value %r" % (r,))
-            if pred is None:
-                want = 1
-            else:
-                cmp_curr_new = {"lt": "Greater", "gt": "Less", "eq": "Equal", "un": None}[rel]
-                want = int(cmp_curr_new == pred)
-            table["%s/%s" % (pred, rel)] = r
-            if r != want:
-                bad.append({"case": "%s-%s" % (pred, rel),
-                            "msg": "Context::depth_test with predicate %s and %s returns %s, expected %s "
-                                   "(pass iff cmp(current, new) == predicate on reciprocal depth)"
-                                   % (pred, REL_NAMES[rel], bool(r), bool(want))})
-    return {"table": table, "bad": bad}
+            seen = set()
+            for ds in sorts:
+                for fc in culls:
+                    for cw in (0, 1):
+                        for dw in (0, 1):
+                            it = A.Interp(prog, oracle=rel_oracle(new, curr, rel))
+                            ctx = struct_value(prog, "retrofire_core::render::ctx::Context",
+                                               depth_test=A.NONE if pred is None else A.some(A.ordering(pred)),
+                                               depth_sort=A.copy_val(ds), face_cull=A.copy_val(fc), color_write=cw, depth_write=dw,
+                                               depth_clear=A.UNKNOWN, color_clear=A.UNKNOWN)
+                            cell = A.Frame(None)
+                            cell.locals[0] = ctx
+                            try:
+                                r = it.call_body(body, [("ref", cell, 0, []), new, curr])
+                            except A.Undecided as e:
+                                raise common.Infra("C06.W4: depth_test could not be evaluated abstractly (%s); rule needs re-confirmation" % e)
+                            if not isinstance(r, int):
+                                raise common.Infra("C06.W4: depth_test returned undecided value %r" % (r,))
+                            n += 1
+                            seen.add(r)
+                            if pred is None:
+                                want = 1
+                            else:
+                                cmp_curr_new = {"lt": "Greater", "gt": "Less", "eq": "Equal", "un": None}[rel]
+                                want = int(cmp_curr_new == pred)
+                            if r != want and len(bad) < 6:
+                                dsn = ds[2] if ds[2] == "None" else ds[3][0][2]
+                                bad.append({"case": "%s-%s-%s" % (pred, rel, dsn),
+                                            "msg": "Context::depth_test with predicate %s, %s, depth_sort=%s, face_cull=%s, color_write=%s, depth_write=%s returns %s, expected %s "
+                                                   "(pass iff cmp(current, new) == predicate on reciprocal depth, whatever the other settings)"
+                                                   % (pred, REL_NAMES[rel], dsn, fc[2] if fc[2] == "None" else fc[3][0][2], cw, dw, bool(r), bool(want))})
+            table["%s/%s" % (pred, rel)] = sorted(seen)
+    return {"table": table, "bad": bad, "evaluations": n}
 
 
 def _leaves(v):
@@ -75,9 +91,11 @@ def _leaves(v):
 
 
 def eval_depth_sort(prog, body):
-    """Spec: comparator(t, u) for FrontToBack orders by ascending depth key,
-    for BackToFront by descending; the key must be an Add-combination of the
-    z or w clip coordinates of ONE triangle (monotone in depth)."""
+    """Spec: the order depth_sort imposes on two triangles t, u is, for FrontToBack,
+    the order of their depth keys and for BackToFront the reverse — for every
+    combination of key signs (a key built from bit patterns or magnitudes orders
+    negatives wrongly). The key must be an Add-combination of the z or w clip
+    coordinates of ONE triangle (monotone in depth)."""
     from . import common
     tri_p = "retrofire_core::geom::Tri"
     cv_p = "retrofire_core::render::clip::ClipVert"
@@ -100,47 +118,111 @@ def eval_depth_sort(prog, body):
             return owners.pop()
         return None
 
+    def is_bits(v):
+        return isinstance(v, tuple) and v[0] == "symop" and v[1] == "to_bits" and key_class(v[2]) is not None
+
+    REL = {"lt": {"Lt": True, "Le": True, "Gt": False, "Ge": False, "Eq": False, "Ne": True},
+           "eq": {"Lt": False, "Le": True, "Gt": False, "Ge": True, "Eq": True, "Ne": False},
+           "gt": {"Lt": False, "Le": False, "Gt": True, "Ge": True, "Eq": False, "Ne": True}}
+    FLIP = {"lt": "gt", "gt": "lt", "eq": "eq"}
+    cases = []
+    for rel, pairs in (("lt", [("neg", "neg"), ("neg", "zero"), ("neg", "pos"), ("zero", "pos"), ("pos", "pos")]),
+                       ("eq", [("neg", "neg"), ("zero", "zero"), ("pos", "pos")]),
+                       ("gt", [("neg", "neg"), ("zero", "neg"), ("pos", "neg"), ("pos", "zero"), ("pos", "pos")])):
+        for st, su in pairs:
+            cases.append((st, su, rel))
     table = {}
     bad = []
     for mode in ("FrontToBack", "BackToFront"):
-        for rel in ("lt", "eq", "gt"):
-            def orc(op, a, b, rel=rel):
+        for (st, su, rel) in cases:
+            sign = {"t": st, "u": su}
+
+            def rel_of(a, b, rel=rel):
                 ka, kb = key_class(a), key_class(b)
                 if ka is None or kb is None:
                     return None
                 if ka == kb:
-                    r = "eq" if a == b else None
+                    return "eq" if a == b else None
+                return rel if ka == "t" else FLIP[rel]
+
+            def orc(op, a, b, sign=sign):
+                if is_bits(a) and is_bits(b):
+                    fa, fb = a[2], b[2]
+                    r = rel_of(fa, fb)
                     if r is None:
                         return None
-                elif ka == "t":
-                    r = rel
-                else:
-                    r = {"lt": "gt", "gt": "lt", "eq": "eq"}[rel]
-                return {"Lt": r == "lt", "Gt": r == "gt", "Eq": r == "eq", "Ne": r != "eq",
-                        "Le": r in ("lt", "eq"), "Ge": r in ("gt", "eq")}.get(op)
+                    na, nb = sign[key_class(fa)] == "neg", sign[key_class(fb)] == "neg"
+                    if na and nb:
+                        r = FLIP[r]            # both negative: bit patterns order by magnitude
+                    elif na != nb:
+                        r = "gt" if na else "lt"   # a negative float has the larger bit pattern
+                    return REL[r].get(op)
+                zero = ("f", 0.0)
+                for x, y, flip in ((a, b, False), (b, a, True)):
+                    if key_class(x) is not None and y == zero:
+                        r = {"neg": "lt", "zero": "eq", "pos": "gt"}[sign[key_class(x)]]
+                        if flip:
+                            r = FLIP[r]
+                        return REL[r].get(op)
+                r = rel_of(a, b)
+                return REL[r].get(op) if r else None
             got = []
 
-            def m_sort(it, args, callee, depth):
+            def cmp_values(it, a, b):
+                a, b = A.deref_all(it, a), A.deref_all(it, b)
+                if isinstance(a, tuple) and a[0] == "adt" and a[1].endswith("cmp::Reverse") and isinstance(b, tuple) and b[0] == "adt":
+                    return cmp_values(it, b[3][0], a[3][0])
+                if isinstance(a, int) and isinstance(b, int):
+                    return "Less" if a < b else "Greater" if a > b else "Equal"
+                if isinstance(a, tuple) and a[0] == "tuple" and isinstance(b, tuple) and b[0] == "tuple":
+                    for x, y in zip(a[1], b[1]):
+                        c = cmp_values(it, x, y)
+                        if c != "Equal":
+                            return c
+                    return "Equal"
+                lt, gt = it.oracle("Lt", a, b), it.oracle("Gt", a, b)
+                if lt is None or gt is None:
+                    raise A.Undecided("sort keys %r and %r are not comparable in the sign/order domain" % (a, b))
+                return "Less" if lt else "Greater" if gt else "Equal"
+
+            def pair():
                 ct, cu = A.Frame(None), A.Frame(None)
                 ct.locals[0] = tri("t")
                 cu.locals[0] = tri("u")
-                got.append(it.invoke(args[1], [("ref", ct, 0, []), ("ref", cu, 0, [])], depth))
+                return ("ref", ct, 0, []), ("ref", cu, 0, [])
+
+            def m_sort(it, args, callee, depth):
+                rt, ru = pair()
+                r = it.invoke(args[1], [rt, ru], depth)
+                got.append(r[2] if isinstance(r, tuple) and r[0] == "adt" and r[1] == "core::cmp::Ordering" else r)
                 return ("tuple", [])
-            it = A.Interp(prog, oracle=orc, models={"sort_unstable_by": m_sort, "sort_by": m_sort})
+
+            def m_sort_key(it, args, callee, depth):
+                rt, ru = pair()
+                kt = it.invoke(args[1], [rt], depth)
+                ku = it.invoke(args[1], [ru], depth)
+                got.append(cmp_values(it, kt, ku))
+                return ("tuple", [])
+
+            def m_to_bits(it, args, callee, depth):
+                x = A.deref_all(it, args[0])
+                return ("symop", "to_bits", x, None)
+            it = A.Interp(prog, oracle=orc, models={"sort_unstable_by_key": m_sort_key, "sort_by_key": m_sort_key, "sort_by_cached_key": m_sort_key,
+                                                     "sort_unstable_by": m_sort, "sort_by": m_sort, "f32>::to_bits": m_to_bits})
             d = ("adt", "retrofire_core::render::ctx::DepthSort", mode, [])
             try:
                 it.call_body(body, [A.UNKNOWN, d])
             except A.Undecided as e:
-                raise common.Infra("C06.W7: depth_sort comparator could not be evaluated abstractly (%s)" % e)
-            if len(got) != 1 or not (isinstance(got[0], tuple) and got[0][0] == "adt" and got[0][1] == "core::cmp::Ordering"):
-                raise common.Infra("C06.W7: depth_sort did not invoke a slice sort with a decidable comparator: %r" % (got,))
-            res = got[0][2]
+                raise common.Infra("C06.W7: depth_sort ordering could not be evaluated abstractly (%s)" % e)
+            if len(got) != 1 or got[0] not in ("Less", "Equal", "Greater"):
+                raise common.Infra("C06.W7: depth_sort did not invoke a slice sort with a decidable ordering: %r" % (got,))
+            res = got[0]
             asc = {"lt": "Less", "eq": "Equal", "gt": "Greater"}[rel]
             desc = {"lt": "Greater", "eq": "Equal", "gt": "Less"}[rel]
             want = asc if mode == "FrontToBack" else desc
-            table["%s/key(t)%skey(u)" % (mode, {"lt": "<", "eq": "=", "gt": ">"}[rel])] = res
-            if res != want:
-                bad.append({"case": "%s-%s" % (mode, rel),
-                            "msg": "depth_sort comparator for %s with depth(t) %s depth(u) yields %s, expected %s"
-                                   % (mode, {"lt": "<", "eq": "=", "gt": ">"}[rel], res, want)})
+            table["%s/t(%s)%su(%s)" % (mode, st, {"lt": "<", "eq": "=", "gt": ">"}[rel], su)] = res
+            if res != want and len(bad) < 6:
+                bad.append({"case": "%s-%s-%s-%s" % (mode, rel, st, su),
+                            "msg": "depth_sort orders two triangles with depth(t) %s depth(u) (signs: t %s, u %s) as %s under %s, expected %s"
+                                   % ({"lt": "<", "eq": "=", "gt": ">"}[rel], st, su, res, mode, want)})
     return {"table": table, "bad": bad}
